@@ -6,6 +6,8 @@
 # The scratch copies are removed at the end (-k keeps them).
 set -u
 HERE=/verif
+# one regression at a time: the scratch copies /tmp/mutrun<k> are shared
+exec 9>/tmp/mutrun.lock; flock 9
 J=4; TIER=quick; KEEP=0; BASE=seeded
 while getopts "j:t:kd:" o; do case $o in j) J=$OPTARG;; t) TIER=$OPTARG;; k) KEEP=1;; d) BASE=$OPTARG;; esac; done
 shift $((OPTIND-1))
